@@ -512,9 +512,14 @@ func (nz *normaliser) unrollIn(f *ast.File) {
 		if ok {
 			obj, _ = nz.info.Uses[id].(*types.Var)
 			tb = nz.tables[obj]
-		} else if cl, isCL := rs.X.(*ast.CompositeLit); isCL && nz.inInitialiser(rs.Pos()) {
-			// `for _, name := range []string{"a", "b"} {` inside a table builder
-			if at, isArr := cl.Type.(*ast.ArrayType); isArr && len(cl.Elts) > 0 && len(cl.Elts) <= 256 {
+		} else if cl, isCL := rs.X.(*ast.CompositeLit); isCL {
+			// `for _, name := range []string{"a", "b"} {` inside a table builder (any length) or
+			// anywhere else (short lists of names, as in `for _, key := range []string{"query", "filter"}`)
+			limit := 32
+			if nz.inInitialiser(rs.Pos()) {
+				limit = 256
+			}
+			if at, isArr := cl.Type.(*ast.ArrayType); isArr && len(cl.Elts) > 0 && len(cl.Elts) <= limit {
 				okAll := true
 				for _, e := range cl.Elts {
 					if _, isKV := e.(*ast.KeyValueExpr); isKV || !nz.constantElt(e) {
@@ -763,6 +768,8 @@ func preNormalise(orig, cur *packages.Package, base map[string][]byte, rep *inli
 		nz.findTables()
 		nz.foldSeams()
 		nz.flattenStructParams()
+		nz.monomorphise()
+		nz.swapThinWrappers()
 		for _, f := range cur.Syntax {
 			nz.unrollIn(f)
 			nz.containsIn(f)
